@@ -374,7 +374,8 @@ def check_import(ctx, fr):
         shape.key(names["duplicate_boundary"]) == shape.key(shape.parse("set(graph.inputs).intersection(graph.outputs)"))
     ctx.ob("R17.3", ZX + ".Diagram.from_pyzx:missing-boundary", ok1, found=guards, required="a boundary vertex that is neither input nor output raises ValueError before anything is built", mod=ZX, node=start, sig="missing-boundary")
     ctx.ob("R17.3", ZX + ".Diagram.from_pyzx:shared-boundary", ok2, found=guards, required="a vertex declared both input and output raises ValueError", mod=ZX, node=start, sig="shared-boundary")
-    shape.match(ctx, "R17.6", ZX + ".Diagram.from_pyzx:start", start.value, "(Id(len(graph.inputs)), graph.inputs)", {}, mod=ZX, node=start, sig="start", required="the row starts as the declared inputs, in order")
+    st0 = shape.values_of(fr.body[:fr.body.index(loop)], ["diagram", "scan"])
+    shape.match(ctx, "R17.6", ZX + ".Diagram.from_pyzx:start", st0, "(Id(len(graph.inputs)), graph.inputs)", {}, mod=ZX, node=start, sig="start", required="the row starts as the declared inputs, in order")
 
 
 def check(ctx):
